@@ -457,6 +457,15 @@ func GMX509KeyPairs(certPEMBlock, keyPEMBlock, encCertPEMBlock, encKeyPEMBlock [
 		return fail(err)
 	}
 
+	// the encryption key must belong to the encryption certificate as well
+	encKeyDERBlock, err := getKey(encKeyPEMBlock)
+	if err != nil {
+		return fail(err)
+	}
+	if _, err = matchKeyCert(encKeyDERBlock, certificate.Certificate[1]); err != nil {
+		return fail(err)
+	}
+
 	return certificate, nil
 }
 
